@@ -289,6 +289,118 @@ pub fn judge(c: &Case, rec: &mut Rec) -> Verdict {
     }
 }
 
+// ------------------------------------------------------------------ libfs without the Linux backend
+
+#[derive(Clone, Debug, Serialize, Deserialize)]
+pub struct FbCase {
+    pub content: Content,
+    /// 0 copy_file, 1 cursor copy in chunks, 2 offset copy (blocks in permuted order), 3 copy_sparse
+    pub op: u8,
+    pub bsize: u32,
+    pub seed: u64,
+    pub prior_len: Option<u32>,
+    /// clamp read/write/pread/pwrite with this probability (0 = run unsupervised)
+    pub clamp_pm: u32,
+    pub how: ClampHow,
+}
+
+fn fb_strategy() -> BoxedStrategy<FbCase> {
+    (
+        prop_oneof![Just(1u32), Just(7), Just(512), Just(4096), Just(4097), Just(65536)],
+        0u8..4,
+        any::<u64>(),
+        prop::option::of(0u32..100000),
+        prop_oneof![2 => Just(0u32), 1 => Just(50u32), 1 => Just(500u32), 1 => Just(1000u32)],
+        clamp_how(),
+    )
+        .prop_flat_map(|(bsize, op, seed, prior_len, clamp_pm, how)| {
+            let cap = match (clamp_pm, how) {
+                (0, _) => 2 << 20,
+                (pm, ClampHow::One) => 400 * 1000 / pm as u64,
+                (pm, ClampHow::To(n)) => (n as u64).saturating_mul(400 * 1000 / pm as u64),
+                _ => 2 << 20,
+            };
+            gen::content(bsize as u64, 300, std::cmp::min(cap, 2 << 20)).prop_map(move |content| FbCase { content, op, bsize, seed, prior_len, clamp_pm, how })
+        })
+        .boxed()
+}
+
+fn judge_fb(c: &FbCase, rec: &mut Rec) -> Verdict {
+    let sb = match Sandbox::new() {
+        Ok(s) => s,
+        Err(e) => return Verdict::Inconclusive(format!("sandbox: {e}")),
+    };
+    let mut ents = vec![Ent::file(b"src", c.content.clone())];
+    if let Some(pl) = c.prior_len {
+        ents.push(Ent::file(b"dst", Content::data(pl as u64, 9)));
+    }
+    if let Err(e) = materialise(&sb.root, &ents) {
+        return Verdict::Inconclusive(format!("materialise: {e}"));
+    }
+    let opname = ["copy_file", "bytes", "offsets", "sparse"][c.op as usize % 4];
+    let mut args: Vec<Vec<u8>> = vec![opname.as_bytes().to_vec(), b"src".to_vec(), b"dst".to_vec()];
+    if opname == "bytes" {
+        args.push(c.bsize.to_string().into_bytes());
+    }
+    if opname == "offsets" {
+        args.push(c.bsize.to_string().into_bytes());
+        args.push(c.seed.to_string().into_bytes());
+    }
+    let (ok, clamped, stdout) = if c.clamp_pm == 0 {
+        let mut spec = RunSpec::xcp(args.clone(), &sb.root, &sb.out);
+        spec.bin = PathBuf::from(FALLBACK_BIN);
+        let o = run_plain(&spec);
+        if o.timed_out {
+            return Verdict::Inconclusive("watchdog".into());
+        }
+        (o.ok(), 0usize, String::from_utf8_lossy(&o.stdout).to_string())
+    } else {
+        let spec = SupSpec {
+            bin: PathBuf::from(FALLBACK_BIN),
+            args: args.clone(),
+            cwd: sb.root.clone(),
+            umask: 0o022,
+            nofile: None,
+            timeout: std::time::Duration::from_secs(60),
+            out_dir: sb.out.clone(),
+            root: sb.rootb(),
+            extra_roots: vec![],
+            rules: vec![Rule { sys: vec![Sys::Read, Sys::Write, Sys::Pread, Sys::Pwrite], path: PathSel::Sandbox, nth: Nth::Prob(c.seed, c.clamp_pm), action: clamp_action(c.how, c.seed) }],
+            sched: Sched::free(),
+            log_all: false,
+            extra_env: vec![],
+        };
+        let o = Sup::run(spec);
+        if o.setup_error.is_some() || o.timed_out {
+            return Verdict::Inconclusive(format!("supervisor: {:?} timeout={}", o.setup_error, o.timed_out));
+        }
+        (o.ok(), o.fired.iter().sum::<usize>(), String::from_utf8_lossy(&o.stdout).to_string())
+    };
+    rec.eval(1);
+    let len = c.content.len();
+    let key = format!("fallback|{}|{}|clamp{}|{}|exit={}", opname, gen::blocks_class(len, c.bsize as u64), c.clamp_pm, if c.content.has_hole() { "sparse" } else { "dense" }, if ok { "0" } else { "!0" });
+    let new = rec.class(key);
+    rec.count("fallback_calls_clamped", clamped as i64);
+    if !ok {
+        return Verdict::Pass;
+    }
+    if len > 0 {
+        rec.nontrivial(case_hash(c));
+    }
+    if new {
+        rec.sample(json!({"probe": args.iter().map(|a| esc(a)).collect::<Vec<_>>(), "len": len, "clamped_calls": clamped}));
+    }
+    match first_diff(&sb.abs(b"src"), &sb.abs(b"dst")) {
+        Ok(None) => Verdict::Pass,
+        Ok(Some(off)) => Verdict::faild(
+            format!("C05|fallback|{}|{}", opname, if clamped > 0 { "short-read/write" } else { "plain" }),
+            format!("libfs (no Linux backend) {} reported success ({}) but the copy differs at offset {} of {}", opname, stdout.trim(), off, len),
+            json!({"probe": args.iter().map(|a| esc(a)).collect::<Vec<_>>(), "clamped": clamped}),
+        ),
+        Err(e) => Verdict::Inconclusive(format!("compare: {e}")),
+    }
+}
+
 impl Check for C05 {
     fn id(&self) -> &'static str {
         "C05"
@@ -303,16 +415,23 @@ impl Check for C05 {
         vec!["short counts are produced by lowering the length register at syscall entry, so the kernel really transfers n bytes (a legal short return); errnos are injected by cancelling the call".into()]
     }
     fn needs(&self) -> Needs {
-        Needs { xcp: true, probe: false, fallback: false }
+        Needs { xcp: true, probe: false, fallback: true }
     }
     fn run_shard(&self, ctx: &Ctx, rec: &mut Rec) {
-        let total = match ctx.tier {
-            Tier::Quick => 4000,
-            Tier::Thorough => 60000,
+        let (total, fb) = match ctx.tier {
+            Tier::Quick => (4000, 1500),
+            Tier::Thorough => (60000, 20000),
         };
         prop_loop(ctx, rec, "gen", strategy(), ctx.share(total), judge);
+        prop_loop(ctx, rec, "fallback", fb_strategy(), ctx.share(fb), judge_fb);
     }
-    fn replay(&self, _ctx: &Ctx, _sub: &str, case: &Value) -> Verdict {
+    fn replay(&self, _ctx: &Ctx, sub: &str, case: &Value) -> Verdict {
+        if sub == "fallback" {
+            return match serde_json::from_value::<FbCase>(case.clone()) {
+                Ok(c) => judge_fb(&c, &mut Rec::default()),
+                Err(e) => Verdict::Inconclusive(format!("bad case: {e}")),
+            };
+        }
         match serde_json::from_value::<Case>(case.clone()) {
             Ok(c) => judge(&c, &mut Rec::default()),
             Err(e) => Verdict::Inconclusive(format!("bad case: {e}")),
@@ -325,6 +444,6 @@ impl Check for C05 {
         }
     }
     fn required_classes(&self, _tier: Tier) -> Vec<String> {
-        ["clamp-cfr/", "cfr-errno38", "cfr-errno18", "cfr-errno1/", "ficlone-errno", "fiemap-eopnotsupp", "read-eintr", "natural-ext4-to-tmpfs", "natural-tmpfs", "|parblock|", "|parfile|", "sparse"].iter().map(|s| s.to_string()).collect()
+        ["clamp-cfr/", "cfr-errno38", "cfr-errno18", "cfr-errno1/", "ficlone-errno", "fiemap-eopnotsupp", "read-eintr", "natural-ext4-to-tmpfs", "natural-tmpfs", "|parblock|", "|parfile|", "sparse", "fallback|copy_file", "fallback|bytes", "fallback|offsets", "fallback|sparse", "clamp1000"].iter().map(|s| s.to_string()).collect()
     }
 }
